@@ -52,6 +52,8 @@ type Val struct {
 	Dyn    types.Type // statically known dynamic type for KIface
 	Sort   string     // for KMap: SMT sort
 	Elem   *Val       // for KMap: template of element (kind/type)
+	Owner  string     // for a pointer-valued mutex: the object whose monitor it is
+	OwnerT string     // monitor type key of Owner
 }
 
 func (v Val) isScalar() bool {
